@@ -30,8 +30,8 @@ Inductive case :=
 | KPct (shape : list nat) (axis : Z) (rtol atol : float) (x : list fc) (out : list fc)
 (* analyzer: channels, N, np.correlate(data[i],data[j],'full') for i<=j (row-major over pairs),
    the analyzer's nch*nch rows *)
-| KXcorr (nch N : nat) (corr : list (list float)) (out : list (list float))
-| KXcorrNorm (nch N : nat) (corr : list (list float)) (cc : list float) (out : list (list float))
+| KXcorr (nch N : nat) (atol : float) (corr : list (list float)) (out : list (list float))
+| KXcorrNorm (nch N : nat) (atol : float) (corr : list (list float)) (cc : list float) (out : list (list float))
 (* correlation_spectrum: n norm, spectra of the demeaned inputs, sum x1^2 * sum x2^2 is computed
    from x1 x2 (demeaned by the model), out *)
 | KCorrSpec (n : nat) (norm : bool) (x1 x2 : list float) (X1 X2 : list fc) (out : list float)
@@ -72,7 +72,9 @@ Definition check_seed (N : nat) (seed : list float) (targets : list (list float)
           let xy := seed_xy s tq N in
           let xx := seed_xx tq N in
           let rq := f2q r in
-          closeb (rq * rq * (xx * yy)) (xy * xy) && Qle_bool (- (1 # 1000000000000)) (rq * xy)
+          (* tolerances relative to the data scale: xy^2 <= xx*yy *)
+          closeb_tol rtol_default (rtol_default * (xx * yy)) (rq * rq * (xx * yy)) (xy * xy)
+          && (Qle_bool 0 (rq * xy) || Qle_bool (xy * xy) (rtol_default * (xx * yy)))
           && Nat.eqb (length t) N)
        targets out.
 
@@ -90,7 +92,8 @@ Definition check_zscore shape axis rtol atol x (stds : list float) out : bool :=
   && Nat.eqb (length x) (prodn shape)
   (* the library's std is the root of the variance of the lane *)
   && forallb (fun o => forallb (fun i => let s := nth (o * inner + i) sq 0 in
-                                          Qle_bool 0 s && closeb (s * s) (cvar (lane dx N inner o i) N))
+                                          let v := cvar (lane dx N inner o i) N in
+                                          Qle_bool 0 s && closeb_tol rtol_default (rtol_default * v) (s * s) v)
                                (seq 0 inner)) (seq 0 outer).
 
 Definition check_pct shape axis rtol atol x out : bool :=
@@ -109,15 +112,15 @@ Fixpoint pair_pos (nch i j : nat) : nat :=
 Definition corr_of (nch : nat) (corr : list (list float)) : nat -> nat -> nat -> Q :=
   fun i j => qsig (ql (nth (pair_pos nch i j) corr [])).
 
-Definition check_rows (nch M : nat) (f : nat -> nat -> nat -> Q) (out : list (list float)) : bool :=
+Definition check_rows (nch M : nat) (atol : Q) (f : nat -> nat -> nat -> Q) (out : list (list float)) : bool :=
   Nat.eqb (length out) (nch * nch)
   && forallb (fun i => forallb (fun j =>
-       close_list (map (f i j) (seq 0 M)) (ql (nth (i * nch + j) out []))) (seq 0 nch)) (seq 0 nch).
+       close_list_tol rtol_default atol (map (f i j) (seq 0 M)) (ql (nth (i * nch + j) out []))) (seq 0 nch)) (seq 0 nch).
 
-Definition check_xcorr nch N corr out : bool :=
-  check_rows nch (N + N - 1) (xcorr_fill (corr_of nch corr)) out.
-Definition check_xcorr_norm nch N corr (cc : list float) out : bool :=
-  check_rows nch (N + N - 1)
+Definition check_xcorr nch N (atol : float) corr out : bool :=
+  check_rows nch (N + N - 1) (f2q atol) (xcorr_fill (corr_of nch corr)) out.
+Definition check_xcorr_norm nch N (atol : float) corr (cc : list float) out : bool :=
+  check_rows nch (N + N - 1) (f2q atol)
              (xcorr_norm_fill (corr_of nch corr) (fun i j => nth (i * nch + j) (ql cc) 0) N) out.
 
 (* ---------------------------------------------------------------- correlation_spectrum *)
@@ -133,7 +136,9 @@ Definition check_corrspec (n : nat) (norm : bool) (x1 x2 : list float) (X1 X2 : 
     let d2 := demean (qsig (ql x2)) n in
     let SS := dot d1 d1 n * dot d2 d2 n * (inj n * inj n) in
     all2 (fun k (c : Q) => let g := corrspec_num a b k in
-                           closeb (c * c * SS) (g * g) && Qle_bool (- (1 # 1000000000000)) (c * g))
+                           (* |g| <= n sqrt(S1 S2): tolerances relative to SS *)
+                           closeb_tol rtol_default (rtol_default * SS) (c * c * SS) (g * g)
+                           && (Qle_bool 0 (c * g) || Qle_bool (g * g) (rtol_default * SS)))
          (seq 0 L) (ql out).
 
 (* ---------------------------------------------------------------- entropy family *)
@@ -163,8 +168,8 @@ Definition check (c : case) : bool :=
   | KSeed N seed targets out => check_seed N seed targets out
   | KZscore shape axis rtol atol x stds out => check_zscore shape axis rtol atol x stds out
   | KPct shape axis rtol atol x out => check_pct shape axis rtol atol x out
-  | KXcorr nch N corr out => check_xcorr nch N corr out
-  | KXcorrNorm nch N corr cc out => check_xcorr_norm nch N corr cc out
+  | KXcorr nch N atol corr out => check_xcorr nch N atol corr out
+  | KXcorrNorm nch N atol corr cc out => check_xcorr_norm nch N atol corr cc out
   | KCorrSpec n norm x1 x2 X1 X2 out => check_corrspec n norm x1 x2 X1 X2 out
   | KEnt k xs lag logtab out => check_ent k xs lag logtab out
   end.
